@@ -353,7 +353,16 @@ func c19RefEval(formula string, ctx *c19Ctx) (v float64, rejected string) {
 	return v, ""
 }
 
+// set by c19gram.go (build tag c19 only): grammar / literal / implied-multiplication / metamorphic ops
+var c19Extra func(f []string) (string, bool)
+var c19ExtraGen func(r *Rand, tier string) []string
+
 func c19Run(f []string) string {
+	if c19Extra != nil {
+		if s, ok := c19Extra(f); ok {
+			return s
+		}
+	}
 	switch f[0] {
 	case "math":
 		ctx := c19ParseBinding(f[2], f[3])
@@ -630,6 +639,9 @@ func c19Gen_(r *Rand, tier string) []string {
 		if r.Chance(1, 3) {
 			out = append(out, c19ExprCase(r, f, ms, ks))
 		}
+	}
+	if c19ExtraGen != nil {
+		out = append(out, c19ExtraGen(r, tier)...)
 	}
 	if tier == "thorough" {
 		// exhaustive: every token sequence up to length 5 over a small alphabet (x=3, [0]=-2.5),
